@@ -6,9 +6,9 @@ FIRST = {   # outcome of the FIRST run of the property's quick check on the seed
     "C02-agent5": ("checker hung", "counter-model search exhausted memory (64 GB, OOM kill) and the pool waited for ever; refutation now runs in isolated, memory-limited children - then reported at once, no contract changed"),
     "C03-agent4": ("checker crash (exit 3)", "invalid quantifier pattern for a set comprehension over a lambda-defined list; falls back to no pattern - then reported, no contract changed"),
     "C04-agent4": ("**missed** (exit 0)", "`MessageMeta.__new__` was not under any contract; descriptor-to-field dataflow contract added, replay gained a field named `_rsvd`"),
-    "C05-agent4": ("detected (exit 1)", ""),
+    "C05-agent4": ("**missed** (exit 0)", "`connect_module`'s contract (counter monotonicity, I6) refutes the change, but `connect_module` was only in C05's thorough list; added to the quick list"),
     "C06-agent4": ("detected (exit 1)", ""),
-    "C07-agent4": ("detected (exit 1)", ""),
+    "C07-agent4": ("**missed** (exit 0)", "`run()`'s contract refutes the change (stale module handed to `read_message`), but `run` was only in C07's thorough list; added to the quick lists of C07 and C01"),
     "C08-agent5": ("**missed** (exit 0)", "`_read_message` stated the decode errors only as 'raised ⇒ condition'; the converse ('returned ⇒ size and version agree') added as two postconditions"),
     "C09-agent5": ("**missed** (exit 0)", "the sidecar modelled `_VALIDATION_ENABLED` as a context variable whatever the source bound it to; applicability obligation + two-thread replay added"),
     "C11-agent5": ("detected (exit 1)", ""),
@@ -17,7 +17,7 @@ FIRST = {   # outcome of the FIRST run of the property's quick check on the seed
     "C14-agent4": ("undecided (exit 2)", "new helper `drop_module` had no contract; same-class helpers are now inlined - still **undecided**: the helper reads `self.header`, a view of the receive buffer, and `forward_message`'s precondition does not carry `buffers_ok`; adding it means re-verifying every manager property and was not done"),
     "C16-agent4": ("**missed** (exit 0)", "effect analysis did not look at state shared between compilations in one process; shared-state obligation + two-parser replay added"),
     "C17-agent5": ("detected (exit 1)", ""),
-    "C18-agent4": ("", ""),
+    "C18-agent4": ("undecided (exit 2)", "the change reads the raw ctypes field `_timing` behind the descriptor and calls `ctypes.memset` with an element count for a byte count; neither is in the engine's ctypes model - left **undecided** (a byte-level model of `memset` over typed arrays was not built)"),
     "C19-agent4": ("detected (exit 1)", ""),
 }
 rows = ["| seed | change (agent's summary, shortened) | needs | first run | final | failed obligations (first) | replayed | what was changed after the first run |", "|---|---|---|---|---|---|---|---|"]
